@@ -163,6 +163,7 @@ func init() {
 		{name: "work on another document (build, save, reopen, render as template)", kind: "other"},
 		{name: "AddParagraph({{#image pic}})", kind: "placeholder"},
 		{name: "render-template(pic=png)", kind: "render"},
+		{name: "render-template(no placeholder data: the render adds no relationship of its own)", kind: "render0"},
 		{name: "reopen", kind: "reopen"},
 	}
 	c02Ops = append(c02Ops, base...)
@@ -238,6 +239,8 @@ func (i *c02Inst) Enabled(op int) bool {
 		return i.reop < 1
 	case "render":
 		return i.rend < 1 && i.nph > 0
+	case "render0":
+		return i.rend < 1
 	case "placeholder":
 		return i.nph < 1
 	}
@@ -325,6 +328,19 @@ func (i *c02Inst) Apply(op int) (string, []rep.Violation) {
 			data := document.NewTemplateData()
 			data.SetImageFromData("pic", pngBytes(2, 2, 14), nil)
 			d, e := eng.RenderTemplateToDocument("t", data)
+			if e != nil || d == nil {
+				err = fmt.Errorf("render: %v", e)
+				return
+			}
+			i.doc = d
+			i.rend++
+		case "render0":
+			eng := document.NewTemplateEngine()
+			if _, e := eng.LoadTemplateFromDocument("t", i.doc); e != nil {
+				err = e
+				return
+			}
+			d, e := eng.RenderTemplateToDocument("t", document.NewTemplateData())
 			if e != nil || d == nil {
 				err = fmt.Errorf("render: %v", e)
 				return
